@@ -73,6 +73,19 @@ pub fn c10(t: &dyn TypeOps, cx: &mut Cx) {
                 judge(cx, &what, &p, &exp, &mut arena);
             }
         }
+        // both hash words corrupted at once: the same bit in each (the differences must not
+        // cancel), and a bit in one with the next bit in the other; the type hash is reported
+        for b in 0..64usize {
+            for db in [0usize, 1] {
+                let mut p = bytes.clone();
+                p[13 + b / 8] ^= 1 << (b % 8);
+                let b2 = (b + db) % 64;
+                p[21 + b2 / 8] ^= 1 << (b2 % 8);
+                let h = u64::from_ne_bytes(p[13..21].try_into().unwrap());
+                let exp = format!("WrongTypeHash(ser={:#x},self={:#x},ser_name={},self_name={})", h, th, name, name);
+                judge(cx, &format!("bothhashes:flip{}+{}", b, b2), &p, &exp, &mut arena);
+            }
+        }
         let mut p = bytes.clone();
         p[0..8].reverse();
         judge(cx, "magic:reversed", &p, "EndiannessError", &mut arena);
@@ -752,6 +765,23 @@ pub fn c18(t: &dyn TypeOps, cx: &mut Cx) {
     if cx.type_id == "()" { c18_rendering(cx); }
     let ty = t.ty();
     let n = build(t, cx);
+    // a schema of more than 2^16 rows (a long sequence of deep-copy items, or of many blocks):
+    // still the whole forest (every 4th type in the quick tier)
+    if cx.tier == Tier::Thorough || hash64(&[cx.type_id.as_bytes()]) % 4 == 0 {
+        let k = crate::dom::REPEAT | 24_000;
+        if let Some(i) = first_growing(t, n, k) {
+            if let Out::Ok(so) = t.ser_schema_scaled(i, k) {
+                if so.rows.len() > (1 << 16) {
+                    cx.evals += 1;
+                    cx.transitions += so.rows.len() as u64;
+                    cx.count("schemas_of_more_than_65536_rows", 1);
+                    let bad = schema_forest(&so.rows, &so.bytes, 0);
+                    cx.outcome(if bad.is_empty() { "large-schema-ok" } else { "large-schema-bad" });
+                    for (c, d) in bad.into_iter().take(4) { cx.violate(&format!("large-schema-{}", c), json!({"value_index": i, "rows": so.rows.len(), "observed": d})); }
+                }
+            }
+        }
+    }
     for i in 0..n {
         let want = t.val(i);
         let plain = match t.ser(i) { Out::Ok((b, _)) => b, _ => { cx.outcome("skipped-unserializable"); continue; } };
